@@ -887,6 +887,15 @@ func (env *Env) evalCall(x *ECall, hint types.Type) Val {
 				efail("fresh() needs an old state")
 			}
 			return Val{T: boolT, C: []string{"(> " + v.C[0] + " " + vc.top(env.old) + ")"}}
+		case "iselem":
+			// the pointer is the address of a slice/array element held by value (never an allocated object)
+			v := env.eval(x.Args[0], nil)
+			vc.declIsElem()
+			a := v.Addr
+			if a == "" {
+				a = v.C[0]
+			}
+			return Val{T: boolT, C: []string{"(iselem " + a + ")"}}
 		case "allocated":
 			v := env.eval(x.Args[0], nil)
 			return Val{T: boolT, C: []string{"(and (< 0 " + v.C[0] + ") (<= " + v.C[0] + " " + vc.top(env.st) + "))"}}
